@@ -9,6 +9,7 @@ import (
 	"path"
 	"regexp"
 	"sort"
+	"strconv"
 	"strings"
 	"time"
 )
@@ -673,6 +674,87 @@ var specEmailRe = regexp.MustCompile(`^[a-zA-Z0-9_.+-]+@([a-zA-Z0-9][a-zA-Z0-9-]
 func identityAccepted(o *Obs) bool {
 	n, e, ok := o.identity()
 	return ok && !strings.ContainsAny(n, "<\n\r") && specEmailRe.MatchString(e)
+}
+
+// ---- C01 (command level) ----
+
+// orC01: `hash-object` prints the SHA-1 of 'blob <len>\0<bytes>'; `add` stores a blob with exactly the file's
+// bytes under that id; `cat-file` gives back kind and bytes; nothing stored before changes or disappears
+func orC01(t *Trans) []Viol {
+	if len(t.Args) == 0 {
+		return nil
+	}
+	var vs []Viol
+	for id, x := range t.Pre.Objects {
+		if !x.OK || !x.NameOK {
+			continue
+		}
+		y, ok := t.Post.Objects[id]
+		if !ok {
+			vs = append(vs, Viol{Clause: "stable", Detail: fmt.Sprintf("object %s disappeared", id[:8])})
+		} else if !y.OK || y.Kind != x.Kind || !bytes.Equal(y.Data, x.Data) {
+			vs = append(vs, Viol{Clause: "stable", Detail: fmt.Sprintf("stored object %s changed or was damaged", id[:8])})
+		}
+		if len(vs) > 2 {
+			break
+		}
+	}
+	for id, y := range t.Post.Objects {
+		if _, was := t.Pre.Objects[id]; !was && (!y.OK || !y.NameOK) {
+			vs = append(vs, Viol{Clause: "id", Detail: fmt.Sprintf("new object file %s does not hold content hashing to its name", id[:8])})
+		}
+	}
+	switch t.Args[0] {
+	case "hash-object":
+		if len(t.Args) != 2 || strings.HasSuffix(t.Args[1], "/") {
+			return vs
+		}
+		data, ok := t.Pre.Files[cleanArg(t.Args[1])]
+		if !ok {
+			return vs
+		}
+		if t.Res.Class != "ok" {
+			return append(vs, Viol{Clause: "id", Detail: "hash-object of an existing file failed: " + clip(t.Res.Stderr, 100)})
+		}
+		want := hx(sha1sum(objContent("blob", data)))
+		if got := strings.TrimSpace(t.Res.Stdout); got != want {
+			vs = append(vs, Viol{Clause: "id", Detail: fmt.Sprintf("hash-object printed %s, SHA-1 of 'blob %d\\0…' is %s", got, len(data), want)})
+		}
+	case "cat-file":
+		if len(t.Args) != 3 || (t.Args[1] != "-t" && t.Args[1] != "-p") {
+			return vs
+		}
+		x, ok := t.Pre.Objects[t.Args[2]]
+		if !ok || !x.OK || !x.NameOK {
+			return vs
+		}
+		if t.Res.Class != "ok" {
+			return append(vs, Viol{Clause: "roundtrip", Detail: fmt.Sprintf("cat-file %s of the stored %s %s failed: %s", t.Args[1], x.Kind, t.Args[2][:8], clip(t.Res.Stderr, 100))})
+		}
+		if t.Args[1] == "-t" {
+			if strings.TrimSpace(t.Res.Stdout) != x.Kind {
+				vs = append(vs, Viol{Clause: "roundtrip", Detail: fmt.Sprintf("cat-file -t says %q, the object is a %s", strings.TrimSpace(t.Res.Stdout), x.Kind)})
+			}
+		} else if x.Kind != "tree" && !strings.Contains(string(x.Data), "\x1b") {
+			if t.Res.Stdout != string(x.Data)+"\n" {
+				vs = append(vs, Viol{Clause: "roundtrip", Detail: fmt.Sprintf("cat-file -p of %s %s does not print its %d bytes", x.Kind, t.Args[2][:8], len(x.Data))})
+			}
+		}
+	case "add":
+		if t.Res.Class != "ok" {
+			return vs
+		}
+		for _, e := range t.Post.Index {
+			data, on := t.Pre.Files[string(e.path)]
+			if !on || hx(e.id) != hx(sha1sum(objContent("blob", data))) {
+				continue
+			}
+			if y, ok := t.Post.Objects[hx(e.id)]; !ok || y.Kind != "blob" || !bytes.Equal(y.Data, data) {
+				vs = append(vs, Viol{Clause: "roundtrip", Detail: fmt.Sprintf("after add, %q is staged as %s but no blob with the file's bytes is stored under that id", e.path, hx(e.id)[:8])})
+			}
+		}
+	}
+	return vs
 }
 
 // ---- C07 ----
@@ -1419,9 +1501,15 @@ func orC14(t *Trans) []Viol {
 	}
 	k := 5
 	if len(t.Args) == 3 && t.Args[1] == "-n" {
-		if _, err := fmt.Sscanf(t.Args[2], "%d", &k); err != nil {
+		// the flag library parses integers with base 0 (010 = 8, 0x10 = 16, 1_0 = 10, +3 = 3)
+		v, err := strconv.ParseInt(t.Args[2], 0, 64)
+		if err != nil {
 			return nil
 		}
+		if v > 1<<40 {
+			v = 1 << 40
+		}
+		k = int(v)
 	} else if len(t.Args) != 1 {
 		return nil
 	}
